@@ -102,6 +102,20 @@ structure JwtSt where
   prev   : String
   hist   : Hist
   clock  : Int
+  cb     : String := "none"     -- the kind of UnauthorizedCallback installed
+  opt    : String := "auto"     -- how the option list of Authorize spells the previous secret
+
+/-- how the wrapped (user) handler ends (`hk=`): an explicit status, a panic -/
+def outcomePanics (hk : String) : Bool := hk = "panic-err" || hk = "panic-str" || hk = "abort"
+
+def outcomeStatus (hk : String) (dflt : Nat) : Nat := if hk = "st404" then 404 else if hk = "st500" then 500 else dflt
+
+/-- the model's response with the user handler's outcome applied: the status it set goes out first (a later 500 of `flush`
+is superfluous), a panic after the reply was written leaves the (deferred) flush in place -/
+def applyOutcome (hk : String) (m : Resp) : Resp :=
+  if !m.ran then m
+  else if outcomePanics hk then { m with panic := true }
+  else { m with status := outcomeStatus hk m.status }
 
 def runJwtLine (r : Report) (sec : Nat) (st : JwtSt) (l : Line) : Report × JwtSt :=
   let fail (msg : String) := (r.mismatch sec l.idx msg (joinSp l.op), st)
@@ -121,16 +135,36 @@ def runJwtLine (r : Report) (sec : Nat) (st : JwtSt) (l : Line) : Report × JwtS
                sigOk := fun s => (s = st.secret && sigcur) || (s = st.prev && st.prev ≠ "" && sigprev),
                exp := (← parseTimeClaim (← kv? o "exp")), nbf := (← parseTimeClaim (← kv? o "nbf")),
                iat := (← parseTimeClaim (← kv? o "iat")), claims := claims }
-      let obsOut : Option (AuthOut String) := do
+      let obsOut : Option (AuthOut String × Bool) := do
         let ran ← kv? o "ran"
         let ctx ← parsePairs (← kv? o "ctx")
-        pure { ran := ran ≠ "0", status := (← (← kv? o "status").toNat?), ctx := ctx }
+        let stS ← kv? o "status"
+        if stS ≠ "PANIC" ∧ stS.toNat?.isNone then none
+        pure ({ ran := ran ≠ "0", status := stS.toNat?.getD 0, ctx := ctx }, stS = "PANIC")
       match facts, obsOut with
-      | some f, some out =>
+      | some f, some (out, outPanic) =>
         let clock := st.clock + clk
         let res := authorize (jwtVerify f now) st.hist st.secret st.prev clock
-        let m := res.2
+        let hk := kvStr args "hk"
+        let userCb := st.cb ≠ "none" ∧ st.cb ≠ "nil"
+        -- the gate's model, then the outcome kinds of the user-supplied functions: the wrapped handler (when it runs) and the
+        -- UnauthorizedCallback (when the request is rejected: called once, with the error, BEFORE the 401 is written)
+        let mPanic : Bool := if res.2.ran then outcomePanics hk else (st.cb = "panic-err" || st.cb = "panic-str")
+        let mStatus : Nat :=
+          if res.2.ran then outcomeStatus hk res.2.status
+          else if st.cb = "status" then 403 else if st.cb = "body" then 200 else res.2.status
+        let m : AuthOut String := { ran := res.2.ran, status := mStatus, ctx := res.2.ctx }
+        let mUcb : Nat := if !res.2.ran ∧ userCb then 1 else 0
         let r := { r with ops := r.ops + 1 }
+        let r := r.addCover s!"jwt-options-{st.opt}{if st.prev = "" then "-no-previous" else "-previous"}"
+        let r := r.addCover s!"jwt-callback-{st.cb}{if res.2.ran then "-not-called" else "-called"}"
+        let r := if res.2.ran then r.addCover s!"jwt-handler-outcome-{if hk = "" then "ok" else hk}" else r
+        let r := if kvNat o "ucb" 0 ≠ mUcb ∨ kvNat o "ucberr" 0 ≠ mUcb ∨ outPanic ≠ mPanic then
+            r.mismatch sec l.idx s!"ucb={mUcb} ucberr={mUcb} panic={mPanic}" s!"ucb={kvNat o "ucb" 0} ucberr={kvNat o "ucberr" 0} panic={outPanic}"
+          else r
+        -- a panicking callback / handler leaves no status of the gate's own to look at; a callback that answers itself owns the status
+        let out : AuthOut String := if outPanic then { out with status := m.status } else out
+        let ownStatus : Bool := !userCb || st.cb = "quiet"
         let r := r.addCover (if m.ran then "jwt-accept" else "jwt-reject")
         let r := r.addCover ("jwt-" ++
           (if !f.present then "absent" else if f.segs ≠ 3 then "segments" else if !f.hdrOk then "bad-header"
@@ -149,9 +183,12 @@ def runJwtLine (r : Report) (sec : Nat) (st : JwtSt) (l : Line) : Report × JwtS
         let show_ (x : AuthOut String) := s!"ran={if x.ran then 1 else 0} status={x.status} ctx={showPairs x.ctx}"
         let r := if m.ran ≠ out.ran ∨ m.status ≠ out.status ∨ m.ctx ≠ out.ctx then
           r.mismatch sec l.idx (show_ m) (show_ out) else r
-        let r := match jwtMonitor f now st.secret st.prev out with
-          | some msg => r.violation sec l.idx s!"{msg} [{show_ out}]"
+        let r := match jwtMonitor f now st.secret st.prev (if ownStatus ∨ out.ran then out else { out with status := 401 }) with
+          | some msg => r.violation sec l.idx s!"{msg} [{show_ out}] [options {st.opt}, callback {st.cb}]"
           | none => r
+        let r := match jwtCompleteMonitor f now st.secret st.prev out with
+          | some msg => r.violation sec l.idx s!"{msg} [{show_ out}] [options {st.opt}, callback {st.cb}]"
+          | none => if out.ran then r.addCover "jwt-valid-credential-reached-the-handler" else r
         let r := labelCheck r sec l.idx "jwt" (kv? args "mut") true out.ran (show_ out)
         let r := if kv? args "via" = some "wire" then r.addCover "jwt-via-wire" else r
         let r := if kvNat o "nauth" 0 > 1 then r.addCover "jwt-authorization-sent-twice" else r
@@ -333,9 +370,11 @@ def runCsLine (r : Report) (sec : Nat) (cfg : CsCfg) (l : Line) : Report :=
         fail "rsa-oracle-miss (the harness stated no RSA fact for the effective fingerprint/secret pair)"
       else
       let inner : Inner := fun _ => reply
-      let m0 := contentSecurity (oracleCipher table 0xEE) env cfg req inner
-      let m1 := contentSecurity (oracleCipher table 0xDD) env cfg req inner
+      let hk := kvStr a "hk"
+      let m0 := applyOutcome hk (contentSecurity (oracleCipher table 0xEE) env cfg req inner)
+      let m1 := applyOutcome hk (contentSecurity (oracleCipher table 0xDD) env cfg req inner)
       let r := { r with ops := r.ops + 1 }
+      let r := if m0.ran then r.addCover s!"cs-handler-outcome-{if hk = "" then "ok" else hk}" else r
       let hdrRes := parseContentSecurity env req
       let gated := gatedMethods.contains req.method
       let frame := frameName req.cl req.body
@@ -411,9 +450,11 @@ def runCryptLine (r : Report) (sec : Nat) (key : Bytes) (limit : Int) (l : Line)
     | some (body, reply, cl, table), some obs =>
       let inner : Inner := fun _ => reply
       let C := oracleCipher table 0xEE
-      let m0 := cryptionHandler C limit key cl body inner
-      let m1 := cryptionHandler (oracleCipher table 0xDD) limit key cl body inner
+      let hk := kvStr a "hk"
+      let m0 := applyOutcome hk (cryptionHandler C limit key cl body inner)
+      let m1 := applyOutcome hk (cryptionHandler (oracleCipher table 0xDD) limit key cl body inner)
       let r := { r with ops := r.ops + 1 }
+      let r := if m0.ran then r.addCover s!"crypt-handler-outcome-{if hk = "" then "ok" else hk}{if reply.isEmpty then "-no-reply" else "-reply"}" else r
       let frame := frameName cl body
       let content : Except String Bytes :=
         if cl = 0 then .error "crypt-no-body-passthrough"
@@ -637,7 +678,10 @@ def runRestLine (r : Report) (sec : Nat) (cfg : RestCfg) (st : RestSt) (l : Line
           if g < nbound then
             match restMonitor opts gated credOk covered f.claims cfg.uses.length ran status ctx use with
             | some msg => (r.violation sec l.idx s!"{msg} [chain {chainName}, group {groupName opts}, tok={kvStr a "tok"} cs={kvStr a "cs"}] [{oshow}]", st)
-            | none => (r, st)
+            | none =>
+              match restCompleteMonitor opts gated credOk covered (opts.sigStrict || cfg.cb) ran status with
+              | some msg => (r.violation sec l.idx s!"{msg} [chain {chainName}, group {groupName opts}, tok={kvStr a "tok"} cs={kvStr a "cs"}] [{oshow}]", st)
+              | none => ((if ran ∧ (opts.jwt ∨ (opts.sig ∧ opts.sigKeys)) then r.addCover "rest-valid-credentials-reached-the-handler" else r), st)
           else (r, st)
         | _, _ => fail "unparsable-observation"
     | _, _, _, _ => fail "bad-op"
@@ -689,14 +733,21 @@ def runSection (r : Report) (s : Section) : Report :=
     match (kv? s.cfg "secret").bind unhexStr, (kv? s.cfg "prev").bind unhexStr, (kv? s.cfg "t0").bind String.toInt? with
     | some secret, some prev, some t0 =>
       (s.lines.foldl (fun (acc : Report × JwtSt) l => runJwtLine acc.1 s.idx acc.2 l)
-        (r, { secret := secret, prev := prev, hist := { resetTime := t0 }, clock := t0 })).1
+        (r, { secret := secret, prev := prev, hist := { resetTime := t0 }, clock := t0, cb := kvStr s.cfg "cb" "none",
+              opt := kvStr s.cfg "opt" "auto" })).1
     | _, _, _ => r.mismatch s.idx 0 "bad-section" (joinSp s.cfg)
   | some "cs" =>
-    let cfg : CsCfg := { strict := kvNat s.cfg "strict" 1 = 1, tol := kvInt s.cfg "tol" 60, limit := kvInt s.cfg "limit" 1048576 }
+    -- ctor=plain: ContentSecurityHandler(decrypters, tolerance, strict) = the limit is the package's maxBytes
+    let plain := kvStr s.cfg "ctor" "limit" = "plain"
+    let cfg : CsCfg := { strict := kvNat s.cfg "strict" 1 = 1, tol := kvInt s.cfg "tol" 60,
+                         limit := if plain then maxBytes else kvInt s.cfg "limit" 1048576 }
+    let r := r.addCover (if plain then "cs-constructor-ContentSecurityHandler" else "cs-constructor-LimitContentSecurityHandler")
     s.lines.foldl (fun acc l => runCsLine acc s.idx cfg l) r
   | some "crypt" =>
+    let plain := kvStr s.cfg "ctor" "limit" = "plain"
+    let r := r.addCover (if plain then "crypt-constructor-CryptionHandler" else "crypt-constructor-LimitCryptionHandler")
     match (kv? s.cfg "key").bind unhex with
-    | some key => s.lines.foldl (fun acc l => runCryptLine acc s.idx key (kvInt s.cfg "limit" 1048576) l) r
+    | some key => s.lines.foldl (fun acc l => runCryptLine acc s.idx key (if plain then maxBytes else kvInt s.cfg "limit" 1048576) l) r
     | none => r.mismatch s.idx 0 "bad-section" (joinSp s.cfg)
   | some "tp" =>
     let t0 := kvInt s.cfg "t0" 0
